@@ -1,10 +1,10 @@
 SPECIFICATION Spec
 CONSTANTS
-  GenFiles = {1, 3, 4}
+  GenFiles = {1, 3}
   OtherFiles = {}
   Modes = {292, 420}
-  Variants = {0, 2}
-  ChmodGate = TRUE
+  Variants = {0}
+  ChmodGate = FALSE
   CopyGate = TRUE
   Truncates = TRUE
   Privileged = FALSE
@@ -12,11 +12,5 @@ CONSTANTS
   EnvOn = TRUE
   Record = FALSE
   MaxSteps = 0
-INVARIANT TypeOK
 INVARIANT RunEndOK
-INVARIANT NoTornFile
-INVARIANT IdleModes
-INVARIANT NeverDenied
-INVARIANT RefusedOnlyOnConflict
-INVARIANT UntouchedOthers
 CHECK_DEADLOCK FALSE
